@@ -27,7 +27,7 @@ def imports():
 def row_indices(n, with_lists=True):
     """Yield (descriptor, python object). Descriptors are JSON-able and rebuildable."""
     for i in range(-n, n):
-        for t in ('int', 'int64', 'int32'):
+        for t in ('int', 'int64', 'int32') + (('uint64', 'uint8') if i >= 0 else ()):
             yield {'k': 'int', 'v': i, 't': t}
     bounds = [None] + list(range(-n, n + 1))
     ref = np.arange(n)
@@ -41,16 +41,22 @@ def row_indices(n, with_lists=True):
             for sub in itertools.combinations(range(n), k):
                 for t in ('list', 'int64', 'intp'):
                     yield {'k': 'idx', 'v': list(sub), 't': t}
+                if k <= 2 or k == n:
+                    # index arrays of the other integer types a caller may hold (spike samples are
+                    # stored unsigned)
+                    for t in ('uint64', 'int32', 'uint8', 'int16'):
+                        yield {'k': 'idx', 'v': list(sub), 't': t}
 
 
 def make_row(d):
     if d['k'] == 'int':
-        return {'int': int, 'int64': np.int64, 'int32': np.int32}[d['t']](d['v'])
+        return {'int': int, 'int64': np.int64, 'int32': np.int32, 'uint64': np.uint64,
+                'uint8': np.uint8}[d['t']](d['v'])
     if d['k'] == 'slice':
         return slice(*d['v'])
     if d['t'] == 'list':
         return list(d['v'])
-    return np.array(d['v'], dtype={'int64': np.int64, 'intp': np.intp}[d['t']])
+    return np.array(d['v'], dtype=np.dtype(d['t']))
 
 
 def col_selectors(nc):
@@ -259,6 +265,69 @@ def run_pairs(case, acc, order):
         acc.sample({'read_pairs_on': lay, 'ops': len(ops)})
 
 
+def run_rewrite(case, acc, order):
+    """A history over one directory: a recording is written, opened, read and closed; then another
+    recording is written under the same file names and opened by a fresh reader."""
+    with core.Scratch() as d:
+        acc.state()
+        for step, lay in enumerate(case['layouts']):
+            n = int(sum(lay['parts']))
+            fam = 'cbin' if lay['backend'].startswith('cbin') else lay['backend']
+            reader = None
+            try:
+                reader, A = layouts.build_reader(d, lay)
+                exp = A.astype(A.dtype.newbyteorder('='))
+                shape = tuple(int(x) for x in reader.shape)
+                got = np.asarray(reader[:])
+                got = got.astype(got.dtype.newbyteorder('='))
+                last = np.asarray(reader[n - 1])
+                bad = None
+                if shape != exp.shape:
+                    bad = ('shape', list(shape))
+                elif not arr_equal(got, exp):
+                    bad = ('content', describe(got))
+                elif not arr_equal(last.astype(last.dtype.newbyteorder('=')), exp[[n - 1]]):
+                    bad = ('last-row', describe(last))
+            except Exception as e:
+                exp = None
+                bad = (type(e).__name__, describe(e))
+            finally:
+                if reader is not None:
+                    layouts.close_reader(reader)
+            acc.step(step > 0, 'reopen' if step else 'open')
+            if bad:
+                sig = '%s/reopen/%s/%s%s' % (PROP, fam, 'after-rewrite/' if step else '', bad[0])
+                acc.violation(sig, core.make_record(
+                    PROP, 'reopen', sig, case=case, op={'step': step, 'layout': lay},
+                    expected=describe(exp) if exp is not None else 'a reader on the files as they are now',
+                    observed=bad[1]), order * 10 + step)
+                return
+    if order % 5 == 0:
+        acc.sample({'rewrite_history': [l['parts'] for l in case['layouts']],
+                    'backend': case['layouts'][0]['backend']})
+
+
+def rewrite_cases(ctx):
+    cases = []
+    seqs = [('flat', [[3, 2], [4, 4]]), ('flat', [[4, 4], [3, 2]]), ('flat', [[3, 2], [3, 2]]),
+            ('flat', [[5], [2], [6]]), ('npy', [[5], [7]]), ('npy', [[5], [5]]), ('npy', [[6], [2]]),
+            ('cbin', [[4], [6]]), ('cbin', [[4], [4]])]
+    for backend, seq in seqs:
+        for dts in (('int16', 'int16'), ('int16', 'float32'), ('float64', 'uint8')):
+            for off in ((0, 5) if backend == 'flat' else (0,)):
+                lays = []
+                for k, parts in enumerate(seq):
+                    lay = {'backend': backend, 'dtype': dts[k % 2], 'n_channels': 3, 'parts': parts,
+                           'sample_rate': 1000.0, 'fill': ctx.seed + 4 * k}   # +4: same file names
+                    if backend == 'flat':
+                        lay['offset'] = off
+                    if backend == 'cbin':
+                        lay['chunk'] = 2
+                    lays.append(lay)
+                cases.append({'layouts': lays, 'rewrite': True})
+    return cases
+
+
 def layout_cases(ctx):
     thorough = ctx.thorough
     N = 8 if thorough else 6
@@ -330,10 +399,14 @@ def explore(ctx):
                         'sample_rate': 2 / 600.0, 'fill': ctx.seed}, **extra)
             pcases.append({'layout': lay, 'pairs': True})
     ctx.run_cases(run_pairs, pcases, chunk=1, sweep='read-pairs')
+    # histories over one directory: written, opened, closed, rewritten under the same names, reopened
+    ctx.run_cases(run_rewrite, rewrite_cases(ctx), chunk=2, sweep='rewrite-reopen')
 
 
 def replay(record):
     imports()
+    if (record.get('case') or {}).get('rewrite'):
+        return core.replay_case(run_rewrite, record)
     if (record.get('case') or {}).get('pairs'):
         return core.replay_case(run_pairs, record)
     return core.replay_case(run_case, record)
